@@ -1285,6 +1285,17 @@ fn family_nested_contexts(run: &Run, cnt: &Cnt) -> u64 {
     ("R4", Expr::lit("G2(b)"), "[{a: \"k\", z: \"y\"}]"),
     // a cell naming a column that is nothing else: not a name of the element's scope
     ("R5", Expr::Relation(vec!["u".into(), "w".into()], vec![vec![s("a"), s("u")]]), "[{u: \"x\", w: null}]"),
+    // boxed function definitions with several parameters, declared in an order that is not the alphabetical one, invoked with
+    // positional and with named arguments: as an entry of a boxed context and as the logic of a required decision
+    (
+      "F1",
+      Expr::Context(vec![
+        (Some("f".to_string()), None, Expr::Function(vec![("q".into(), None), ("p".into(), None), ("k".into(), None)], Box::new(s("q + \"/\" + p + \"/\" + k")))),
+        (None, None, s("f(a, b, \"c\") + \"|\" + f(k: \"c\", q: a, p: b)")),
+      ]),
+      "\"x/y/c|x/y/c\"",
+    ),
+    ("F2", Expr::lit("DF(a, b) + \"|\" + DF(second: b, first: a)"), "\"y-x|x-y\""),
     // a decision table whose output clauses are named like the inputs: an output entry reads the inputs, not the
     // entries of the clauses before it
     (
@@ -1319,11 +1330,17 @@ fn family_nested_contexts(run: &Run, cnt: &Cnt) -> u64 {
     knowledge: vec![],
     logic: Expr::Relation(vec!["a".into(), "z".into()], vec![vec![s("\"k\""), s("a")]]),
   });
+  m.decisions.push(dmn::Decision {
+    name: "DF".into(),
+    type_ref: None,
+    requires: dmn::Requires::default(),
+    logic: Some(Expr::Function(vec![("second".into(), Some("string".into())), ("first".into(), Some("string".into()))], Box::new(s("first + \"-\" + second")))),
+  });
   for (name, logic, _) in &cases {
     m.decisions.push(dmn::Decision {
       name: name.to_string(),
       type_ref: None,
-      requires: dmn::Requires { inputs: vec!["a".into(), "b".into()], decisions: vec![], knowledge: if *name == "N6" { vec!["G".into()] } else if *name == "R4" { vec!["G2".into()] } else { vec![] } },
+      requires: dmn::Requires { inputs: vec!["a".into(), "b".into()], decisions: if *name == "F2" { vec!["DF".into()] } else { vec![] }, knowledge: if *name == "N6" { vec!["G".into()] } else if *name == "R4" { vec!["G2".into()] } else { vec![] } },
       logic: Some(logic.clone()),
     });
   }
